@@ -1,4 +1,4 @@
-SPECIFICATION Spec
+SPECIFICATION CheckedSpec
 CONSTANTS
   NH = 3
   MaxBlocks = 2
@@ -16,5 +16,4 @@ CONSTANTS
   EmitOn = FALSE
 VIEW view
 INVARIANTS TypeOK Alive PostedComplete ExactRebuild
-PROPERTIES Waits TimeoutRequests ArrivalBuilds Terminal
 CHECK_DEADLOCK FALSE
